@@ -127,18 +127,18 @@ pub struct Scen {
 }
 
 fn is_resource(k: u8) -> bool {
-    k <= 2
+    k <= 2 || k == 6
 }
 fn standoff(k: u8) -> bool {
-    k == 1 || k == 2 || k == 4 || k == 5
+    k == 1 || k == 2 || k == 4 || k == 5 || k == 6
 }
 
 impl Scen {
     fn from_sx(x: &Sx) -> Scen {
         Scen {
-            mem: x.nth(0).list().iter().map(|v| v.int().clamp(0, 5) as u8).collect(),
+            mem: x.nth(0).list().iter().map(|v| v.int().clamp(0, 6) as u8).collect(),
             chg: x.nth(1).list().iter().map(|v| v.int() != 0).collect(),
-            ops: x.nth(2).list().iter().map(|o| (o.nth(0).int().clamp(0, 7) as u8, o.nth(1).int().max(0) as usize, o.nth(2).int().clamp(0, 9) as u8)).collect(),
+            ops: x.nth(2).list().iter().map(|o| (o.nth(0).int().clamp(0, 9) as u8, o.nth(1).int().max(0) as usize, o.nth(2).int().clamp(0, 9) as u8)).collect(),
             nkeys: if x.nth(4).int() == 2 { x.nth(5).int().clamp(1, 200) as usize } else { 1 },
         }
     }
@@ -173,7 +173,7 @@ impl Scen {
             && self.mem.len() <= 6
             && !self.ops.is_empty()
             && self.ops.len() <= 4
-            && self.ops.iter().all(|(k, i, _)| *k <= 1 || *k >= 6 || *i < self.mem.len())
+            && self.ops.iter().all(|(k, i, _)| *k <= 1 || *k == 6 || *k == 7 || *i < self.mem.len())
             && (0..self.mem.len()).all(|i| !self.chg[i] || standoff(self.mem[i]))
     }
 }
@@ -210,6 +210,8 @@ fn member_file(i: usize, k: u8) -> String {
         format!("m{}.txt", i)
     } else if k == 5 {
         format!("sub{}/m{}.json", i, i)
+    } else if k == 6 {
+        format!("sub{}/m{}.txt", i, i)
     } else {
         format!("m{}.json", i)
     }
@@ -249,7 +251,18 @@ impl Ctx {
         let w = |name: &str, content: String| std::fs::write(self.dir.join(name), content).map_err(|x| x.to_string());
         for (i, k) in sc.mem.iter().enumerate() {
             match *k {
-                1 => w(&member_file(i, 1), format!("Hello plain text {}", i))?,
+                1 => {
+                    // pending text (changed flag set) is not on disk
+                    if !sc.chg[i] {
+                        w(&member_file(i, 1), format!("Hello plain text {}", i))?
+                    }
+                }
+                6 => {
+                    if !sc.chg[i] {
+                        std::fs::create_dir_all(self.dir.join(format!("sub{}", i))).map_err(|x| x.to_string())?;
+                        w(&member_file(i, 6), format!("Hello plain text {}", i))?
+                    }
+                }
                 2 => w(&member_file(i, 2), format!("{{\"@type\":\"TextResource\",\"@id\":\"m{}\",\"text\":\"Hello json text {}\"}}", i, i))?,
                 4 | 5 => w(
                     &{
@@ -282,12 +295,12 @@ impl Ctx {
                 0 => {
                     store.add_resource(TextResourceBuilder::new().with_id(id).with_text(format!("Hello inline text {}", i))).map_err(e)?;
                 }
-                1 => {
+                1 | 6 => {
                     if sc.chg[i] {
                         // text supplied together with a filename: the file counts as new -> changed
-                        store.add_resource(TextResourceBuilder::new().with_id(id).with_text(format!("Hello plain text {}", i)).with_filename(member_file(i, 1))).map_err(e)?;
+                        store.add_resource(TextResourceBuilder::new().with_id(id).with_text(format!("Hello plain text {}", i)).with_filename(member_file(i, *k))).map_err(e)?;
                     } else {
-                        store.add_resource(TextResourceBuilder::new().with_id(id).with_filename(member_file(i, 1))).map_err(e)?;
+                        store.add_resource(TextResourceBuilder::new().with_id(id).with_filename(member_file(i, *k))).map_err(e)?;
                     }
                 }
                 2 => {
@@ -343,10 +356,18 @@ impl Ctx {
         }
         // the directory of an unwritable stand-off file disappears once the store is loaded
         for (i, k) in sc.mem.iter().enumerate() {
-            if *k == 5 {
-                std::fs::remove_dir_all(self.dir.join(format!("sub{}", i))).map_err(|x| x.to_string())?;
+            if *k == 5 || *k == 6 {
+                let _ = std::fs::remove_dir_all(self.dir.join(format!("sub{}", i)));
             }
         }
+        // pending content (changed flag set) is not on disk: a call that writes the member as
+        // @include and returns Ok must have put it there
+        for (i, k) in sc.mem.iter().enumerate() {
+            if sc.chg[i] && (*k == 1 || *k == 2 || *k == 4) {
+                let _ = std::fs::remove_file(self.dir.join(member_file(i, *k)));
+            }
+        }
+        std::fs::create_dir_all(self.dir.join("export")).map_err(|x| x.to_string())?;
         Ok(store)
     }
 
@@ -355,7 +376,7 @@ impl Ctx {
     fn flushes(&self, sc: &Scen, i: usize) -> Result<bool, String> {
         let store = self.build(sc)?;
         let p = self.dir.join(member_file(i, sc.mem[i]));
-        std::fs::remove_file(&p).map_err(|x| x.to_string())?;
+        let _ = std::fs::remove_file(&p);
         let _ = run_op(&store, sc, (1, 0, 0));
         Ok(p.exists())
     }
@@ -375,12 +396,16 @@ impl Ctx {
 
     /// one execution under the scheduler
     /// 1 where the stand-off file of a member does not hold the member's content
-    fn file_status(&self, sc: &Scen) -> Vec<i64> {
+    fn file_status(&self, sc: &Scen, results: &[Got]) -> Vec<i64> {
         sc.mem
             .iter()
             .enumerate()
             .map(|(i, k)| {
-                if !standoff(*k) || *k == 5 {
+                if !standoff(*k) || *k == 5 || *k == 6 {
+                    return 0;
+                }
+                // only a call that returned Ok with this member as @include vouches for the file
+                if !results.iter().any(|g| g.tokens.contains(&(2 * i as i64 + 1))) {
                     return 0;
                 }
                 let content = std::fs::read_to_string(self.dir.join(member_file(i, *k))).unwrap_or_default();
@@ -441,7 +466,7 @@ impl Ctx {
         });
         let (actual, enabled) = ctl?;
         let sites = sched.m.lock().unwrap_or_else(|e| e.into_inner()).sites.clone();
-        let files = self.file_status(sc);
+        let files = self.file_status(sc, &results);
         Ok((actual, enabled, results, sites, files))
     }
 
@@ -468,7 +493,7 @@ impl Ctx {
                 results.push(h.join().unwrap_or(Got { tokens: vec![-1], text: String::new() }));
             }
         });
-        let files = self.file_status(sc);
+        let files = self.file_status(sc, &results);
         Ok((results, files))
     }
 
@@ -515,7 +540,7 @@ impl Ctx {
         }
         let dev = deviating.lock().unwrap_or_else(|e| e.into_inner()).clone();
         let results: Vec<Got> = dev.into_iter().enumerate().map(|(i, d)| d.unwrap_or_else(|| solos[i].clone())).collect();
-        let files = self.file_status(sc);
+        let files = self.file_status(sc, &results);
         Ok((results, files, ncalls.load(Ordering::Relaxed)))
     }
 
@@ -874,6 +899,33 @@ fn run_op(store: &AnnotationStore, sc: &Scen, op: (u8, usize, u8)) -> Got {
             Got { tokens: vec![], text }
         }
         1 => store_op(store),
+        8 | 9 => {
+            // to_txt_file: 8 = an export under the same file name in another directory,
+            // 9 = the resource's own stand-off file (plain-text stand-off resources only)
+            let k = sc.mem[i];
+            if !is_resource(k) || (kind == 9 && k != 1 && k != 6) {
+                return Got { tokens: vec![], text: String::new() };
+            }
+            let r = match store.resource(member_id(i).as_str()) {
+                Some(r) => r,
+                None => return Got { tokens: vec![-6], text: String::new() },
+            };
+            let r: &TextResource = r.as_ref();
+            let target = if kind == 9 {
+                member_file(i, k)
+            } else {
+                let name = std::path::Path::new(&member_file(i, k)).file_name().map(|x| x.to_string_lossy().to_string()).unwrap_or_default();
+                let own = if k == 0 { format!("m{}.txt", i) } else { name };
+                match store.config().workdir() {
+                    Some(w) => w.join("export").join(own).to_string_lossy().to_string(),
+                    None => format!("export/{}", own),
+                }
+            };
+            match r.to_txt_file(&target) {
+                Ok(()) => Got { tokens: vec![], text: String::new() },
+                Err(e) => Got { tokens: vec![-2], text: format!("{:?}", e).replace(|c: char| c.is_ascii_digit(), "") },
+            }
+        }
         6 => {
             // the store written to a file of this thread's own (ToJson::to_json_file), read back
             let name = format!("out-{:?}.json", std::thread::current().id()).replace(['(', ')'], "");
@@ -1210,6 +1262,43 @@ pub fn generate(out: &mut Out, tier: &str, seed: u64) {
         out.count("parallel_adaptors");
     }
 
+    // G. the changed flag as shared state: exports (to_txt_file elsewhere under the same name), the
+    //    legitimate flush through to_txt_file, and stand-off files that cannot be written, next to
+    //    serialisations; pending content is not on disk, so a call that returns Ok with @include must
+    //    have written it, and a failing write must fail for every reader
+    for (mem, chg) in [
+        (vec![1u8], vec![true]),
+        (vec![1], vec![false]),
+        (vec![6], vec![true]),
+        (vec![2], vec![true]),
+        (vec![0], vec![false]),
+        (vec![1, 4], vec![true, true]),
+        (vec![6, 4], vec![true, false]),
+        (vec![1, 6], vec![true, true]),
+    ] {
+        let pool: Vec<(u8, usize, u8)> = vec![(8, 0, 0), (9, 0, 0), (1, 0, 0), (3, 0, 0), (2, 0, 0), (7, 0, 0)];
+        for x in 0..pool.len() {
+            for y in x..pool.len() {
+                if pool[x].0 != 8 && pool[x].0 != 9 && !mem.contains(&6) {
+                    continue;
+                }
+                let sc = Scen { mem: mem.clone(), chg: chg.clone(), ops: vec![pool[x], pool[y]], nkeys: 1 };
+                out.count_n("scenarios_changed_flag", 1);
+                let e = explore(&ctx, out, &sc, if thorough { 1_500 } else { 60 }, "two_threads_all_schedules");
+                if !e.complete {
+                    out.count_n("scenarios_capped", 1);
+                    sample(&ctx, out, &sc, &mut rng, if thorough { 100 } else { 15 }, "two_threads_random_schedule");
+                }
+            }
+        }
+        // three readers: export, failing or flushing serialisation, another serialisation
+        for ops in [vec![(8u8, 0usize, 0u8), (1, 0, 0), (3, 0, 0)], vec![(1, 0, 0), (3, 0, 0), (7, 0, 0)], vec![(9, 0, 0), (8, 0, 0), (1, 0, 0)]] {
+            let sc = Scen { mem: mem.clone(), chg: chg.clone(), ops, nkeys: 1 };
+            sample(&ctx, out, &sc, &mut rng, if thorough { 150 } else { 25 }, "three_threads_random_schedule");
+            out.count_n("scenarios_changed_flag", 1);
+        }
+    }
+
     // F. readers whose serialisations run as jobs on ONE shared rayon pool: a worker that waits
     //    inside one call may run another reader's whole call in the meantime (work stealing), so
     //    nothing that belongs to one logical call may live in the worker thread across such a wait
@@ -1257,6 +1346,6 @@ pub fn generate(out: &mut Out, tier: &str, seed: u64) {
     }
 }
 
-pub const RULE: &str = "Deterministic scheduler over real threads holding &AnnotationStore (blocked at the stam_verif yield points before every access to the serialisation mode and the changed flags; one thread runs at a time); every execution rebuilds the store and its stand-off files under .cache/work/c20/. A (exhaustive, both tiers): for every store with one member (inline / plain-text stand-off / .json stand-off resource, inline / stand-off dataset; changed flag clear and set: 8 stores) every unordered pair of calls out of {store.to_json_string, ToJson::to_json_string(member, store config), inherent member.to_json_string(), ToJson::to_json_string(member, unrelated Config), pure readers: annotation iteration, find_text + reverse lookups, query, .parallel() through rayon}: ALL schedules, enumerated depth-first by re-execution (the generator fails if a pair exceeds the cap). A3: two calls on one thread (ToJson::to_json_string(member) followed by store.to_json_string), and store.to_json_file into a file of the thread's own (read back), each next to every other call on the one-member stores: all schedules up to 100 (thorough 1500), 25 (100) random ones beyond. A4: stores with a stand-off dataset whose file cannot be written (5 stores), pairs out of {store.to_json_string, store.to_json_string twice on one thread, the member calls, a pure reader}: all schedules up to 80 (thorough 1500), 20 (100) random beyond; every call that has to rewrite the file must return Err every time. A2: stores with one resource and one dataset (5 kind combinations x all flag combinations): all schedules up to 800 (thorough 4000), 100 random ones beyond, for pairs of {store serialisation, ToJson(dataset)}; 10 (thorough 100) random schedules for the other pairs. B: three threads on one-member stores: 20 random schedules per triple (quick), all schedules up to 1000 + 300 random beyond (thorough). C: random stores of up to 2+2 members with 2-3 random calls under random schedules. D: free runs - 2-4 threads started together WITHOUT the scheduler (real pre-emption) on stores of 1-5 members. E: the parallel adaptors: stores with 1030 and 4000 (thorough: 1030, 5000, 12000) annotations, rayon pools of 2..8 workers, two reader threads at once, 5 (12) repetitions each, three iterator chains (all annotations; data-filtered via the key; annotations().filter_key_value): len, collect, enumerate/zip fold, find_first, filter+collect of chain.parallel() against the sequential iterator, order included. F: 2-4 readers whose calls (ToJson::to_json_string(dataset), store.to_json_string, inherent resource/dataset to_json_string) run as jobs on ONE shared rayon pool of 2-6 workers (install() from ordinary threads, or all spawned into one pool scope) over stores with a stand-off resource and stand-off datasets of 2, 3, 8, 24, 100 keys, 400 (thorough 1500) rounds per reader, every returned string compared with the solo string. Per thread: the member forms in the string it obtained and equality of the whole string with the string the same call returns alone on an identical store, compared with the specified solo result and with the model's prediction for the executed schedule; per run: whether every stand-off file still holds its member's content. Non-trivial: a stand-off member exists and at least two threads were scheduled twice or more. distinct = distinct (scenario, schedule) lines.";
+pub const RULE: &str = "Deterministic scheduler over real threads holding &AnnotationStore (blocked at the stam_verif yield points before every access to the serialisation mode and the changed flags; one thread runs at a time); every execution rebuilds the store and its stand-off files under .cache/work/c20/. A (exhaustive, both tiers): for every store with one member (inline / plain-text stand-off / .json stand-off resource, inline / stand-off dataset; changed flag clear and set: 8 stores) every unordered pair of calls out of {store.to_json_string, ToJson::to_json_string(member, store config), inherent member.to_json_string(), ToJson::to_json_string(member, unrelated Config), pure readers: annotation iteration, find_text + reverse lookups, query, .parallel() through rayon}: ALL schedules, enumerated depth-first by re-execution (the generator fails if a pair exceeds the cap). A3: two calls on one thread (ToJson::to_json_string(member) followed by store.to_json_string), and store.to_json_file into a file of the thread's own (read back), each next to every other call on the one-member stores: all schedules up to 100 (thorough 1500), 25 (100) random ones beyond. A4: stores with a stand-off dataset whose file cannot be written (5 stores), pairs out of {store.to_json_string, store.to_json_string twice on one thread, the member calls, a pure reader}: all schedules up to 80 (thorough 1500), 20 (100) random beyond; every call that has to rewrite the file must return Err every time. A2: stores with one resource and one dataset (5 kind combinations x all flag combinations): all schedules up to 800 (thorough 4000), 100 random ones beyond, for pairs of {store serialisation, ToJson(dataset)}; 10 (thorough 100) random schedules for the other pairs. B: three threads on one-member stores: 20 random schedules per triple (quick), all schedules up to 1000 + 300 random beyond (thorough). C: random stores of up to 2+2 members with 2-3 random calls under random schedules. D: free runs - 2-4 threads started together WITHOUT the scheduler (real pre-emption) on stores of 1-5 members. E: the parallel adaptors: stores with 1030 and 4000 (thorough: 1030, 5000, 12000) annotations, rayon pools of 2..8 workers, two reader threads at once, 5 (12) repetitions each, three iterator chains (all annotations; data-filtered via the key; annotations().filter_key_value): len, collect, enumerate/zip fold, find_first, filter+collect of chain.parallel() against the sequential iterator, order included. G: the changed flag as shared state: stores with a pending plain-text / .json stand-off resource (its content NOT on disk), an unwritable plain-text stand-off resource (kind 6), with datasets: resource.to_txt_file(<another directory>/<same name>) (export), resource.to_txt_file(<own stand-off file>), store serialisation (once, twice), member serialisations in pairs (all schedules up to 60, thorough 1500) and triples (random schedules): a call that returned Ok with a member as @include must have left the member's content in its stand-off file, a failing stand-off write fails for every reader. F: 2-4 readers whose calls (ToJson::to_json_string(dataset), store.to_json_string, inherent resource/dataset to_json_string) run as jobs on ONE shared rayon pool of 2-6 workers (install() from ordinary threads, or all spawned into one pool scope) over stores with a stand-off resource and stand-off datasets of 2, 3, 8, 24, 100 keys, 400 (thorough 1500) rounds per reader, every returned string compared with the solo string. Per thread: the member forms in the string it obtained and equality of the whole string with the string the same call returns alone on an identical store, compared with the specified solo result and with the model's prediction for the executed schedule; per run: whether every stand-off file still holds its member's content. Non-trivial: a stand-off member exists and at least two threads were scheduled twice or more. distinct = distinct (scenario, schedule) lines.";
 
 pub const EXHAUSTIVE: bool = true;
